@@ -2,7 +2,6 @@ package main
 
 import (
 	"fmt"
-	"go/token"
 	"go/types"
 	"sort"
 	"strings"
@@ -30,22 +29,6 @@ func addends(t *term) map[string]int64 {
 	return out
 }
 
-// getterShape describes a "found iff id != -1" accessor, possibly delegating
-// to a helper with the same shape.
-type getterShape struct {
-	idCall   *ssa.Call // the id lookup on the key (in f or in the helper it delegates to)
-	idFn     *ssa.Function
-	cond     string        // normalised not-found condition on the id
-	notFound *ssa.Return   // in f
-	found    *ssa.Return   // in f
-	value    *term         // found value of f in terms of trie data and the id
-	ordCall  *ssa.Call     // the call that turns the id into a leaf ordinal
-	ordFn    *ssa.Function // function containing ordCall
-	env      *evaluator
-	helper   *ssa.Function
-	why      string
-}
-
 func keyParamOf(f *ssa.Function) *ssa.Parameter {
 	for _, prm := range f.Params {
 		if isStringType(prm.Type()) {
@@ -55,202 +38,101 @@ func keyParamOf(f *ssa.Function) *ssa.Parameter {
 	return nil
 }
 
-// analyseGetter analyses f; env binds f's parameters when f is a helper called from a getter.
-func analyseGetter(p *Program, f *ssa.Function, getID *ssa.Function) getterShape {
-	return analyseGetterRec(p, f, getID, nil, 0)
+// getterSummary is the guarded summary (E11) of a "found iff the id lookup
+// succeeds" accessor with its receiver and key renamed to ST and KEY, helpers
+// of package trie expanded in place.
+type getterSummary struct {
+	nf    []fpath // paths answering found=false
+	found []fpath // paths answering found=true
+	why   string
 }
 
-func analyseGetterRec(p *Program, f *ssa.Function, getID *ssa.Function, bind map[ssa.Value]*term, depth int) getterShape {
-	var gs getterShape
-	keyParam := keyParamOf(f)
-	if keyParam == nil {
+func summariseGetter(p *Program, f *ssa.Function) getterSummary {
+	var gs getterSummary
+	key := keyParamOf(f)
+	if key == nil || len(f.Params) < 2 {
 		gs.why = "no key parameter"
 		return gs
 	}
-	e := newEval(p)
-	for k, v := range bind {
-		e.env[k] = v
+	bind := map[ssa.Value]*term{f.Params[0]: S("ST"), key: S("KEY")}
+	ps, why := flatten(p, f, bind, trieScope)
+	if why != "" {
+		gs.why = "cannot be summarised: " + why
+		return gs
 	}
-	gs.env = e
-	rets := returnsOf(f)
-	// direct form: id := idFn(st, key); if id == -1 { return zero, false }; return V, true
-	for _, c := range callsIn(f) {
-		if call, ok := c.(*ssa.Call); ok && calleeOf(call) == getID {
-			if len(call.Call.Args) == 2 && call.Call.Args[1] == keyParam {
-				gs.idCall = call
-				gs.idFn = getID
-			}
+	for _, fp := range ps {
+		if fp.panics {
+			continue
 		}
-	}
-	if gs.idCall != nil {
-		iff, ok := lastInstr(gs.idCall.Block()).(*ssa.If)
-		if !ok {
-			gs.why = "the id does not control the first branch"
+		if len(fp.results) != 2 {
+			gs.why = "does not return (value, found)"
 			return gs
 		}
-		plain := newEval(p)
-		gs.cond = plain.eval(iff.Cond).String()
-		idTerm := plain.eval(gs.idCall).String()
-		nfSucc := -1
-		switch gs.cond {
-		case "cmp:==(" + idTerm + ",-1)":
-			nfSucc = 0
-		case "cmp:!=(" + idTerm + ",-1)":
-			nfSucc = 1
-			gs.cond = "cmp:==(" + idTerm + ",-1)"
+		switch fp.results[1].String() {
+		case "false":
+			gs.nf = append(gs.nf, fp)
+		case "true":
+			gs.found = append(gs.found, fp)
 		default:
-			gs.why = "the first branch does not test id == -1 (condition " + gs.cond + ")"
+			gs.why = "the found flag " + abbreviate(fp.results[1].String()) + " is not a constant on the path [" + abbreviate(fp.pcKey()) + "]"
 			return gs
 		}
-		// normalise the key symbol so that conditions of different functions compare
-		gs.cond = strings.ReplaceAll(gs.cond, ","+keyParam.Name()+")", ",KEY)")
-		nf, okNF := lastInstr(iff.Block().Succs[nfSucc]).(*ssa.Return)
-		if !okNF {
-			gs.why = "the not-found branch does not return at once"
-			return gs
-		}
-		gs.notFound = nf
-		for _, r := range rets {
-			if r != nf {
-				if gs.found != nil {
-					gs.why = "more than one found return"
-					return gs
-				}
-				gs.found = r
-			}
-		}
-		if gs.found == nil {
-			gs.why = "no found return"
-			return gs
-		}
-		// ordinal call: a trie call (not the id lookup) taking the id
-		for _, c := range callsIn(f) {
-			if call, ok := c.(*ssa.Call); ok && call != gs.idCall && calleeOf(call) != nil && trieScope(calleeOf(call)) {
-				for _, a := range call.Call.Args {
-					if a == gs.idCall {
-						gs.ordCall = call
-						gs.ordFn = f
-					}
-				}
-			}
-		}
-		if len(gs.found.Results) >= 1 {
-			gs.value = e.eval(gs.found.Results[0])
-		}
-		return gs
 	}
-	// delegating form: v, ok := helper(st, key, ...); if !ok { return zero, false }; return decode(v), true
-	if depth >= 2 {
-		gs.why = "does not look the key up with " + shortFn(getID)
-		return gs
+	if len(gs.nf) == 0 || len(gs.found) == 0 {
+		gs.why = fmt.Sprintf("%d not-found and %d found paths, want at least one each", len(gs.nf), len(gs.found))
 	}
-	for _, c := range callsIn(f) {
-		call, ok := c.(*ssa.Call)
-		if !ok {
-			continue
-		}
-		h := calleeOf(call)
-		if h == nil || !trieScope(h) || len(h.Blocks) == 0 || h == f {
-			continue
-		}
-		passesKey := false
-		for _, a := range call.Call.Args {
-			if a == keyParam {
-				passesKey = true
-			}
-		}
-		if !passesKey || h.Signature.Results().Len() != 2 || !isBoolType(h.Signature.Results().At(1).Type()) {
-			continue
-		}
-		hb := map[ssa.Value]*term{}
-		for i, prm := range h.Params {
-			if i < len(call.Call.Args) {
-				a := call.Call.Args[i]
-				if _, isBasic := a.Type().Underlying().(*types.Basic); isBasic && !isStringType(a.Type()) {
-					hb[prm] = e.eval(a)
-				}
-			}
-		}
-		hs := analyseGetterRec(p, h, getID, hb, depth+1)
-		if hs.why != "" {
-			gs.why = "delegates to " + shortFn(h) + ", which " + hs.why
-			return gs
-		}
-		plain := newEval(p)
-		if len(hs.notFound.Results) != 2 || plain.eval(hs.notFound.Results[1]).String() != "false" || plain.eval(hs.found.Results[1]).String() != "true" {
-			gs.why = "delegates to " + shortFn(h) + ", whose flag is not the constant false/true on the two branches of the id test"
-			return gs
-		}
-		var v0, v1 ssa.Value
-		for _, ref := range *call.Referrers() {
-			if ex, ok := ref.(*ssa.Extract); ok {
-				if ex.Index == 0 {
-					v0 = ex
-				} else {
-					v1 = ex
-				}
-			}
-		}
-		iff, ok := lastInstr(call.Block()).(*ssa.If)
-		if !ok || v1 == nil {
-			gs.why = "the helper's flag does not control the first branch"
-			return gs
-		}
-		nfSucc := -1
-		cond := iff.Cond
-		neg := false
-		for {
-			if u, ok := cond.(*ssa.UnOp); ok && u.Op == token.NOT {
-				neg = !neg
-				cond = u.X
-				continue
-			}
-			break
-		}
-		if cond == v1 {
-			nfSucc = 1
-			if neg {
-				nfSucc = 0
-			}
-		}
-		if nfSucc < 0 {
-			gs.why = "the first branch does not test the helper's found flag"
-			return gs
-		}
-		nf, okNF := lastInstr(iff.Block().Succs[nfSucc]).(*ssa.Return)
-		if !okNF {
-			gs.why = "the not-found branch does not return at once"
-			return gs
-		}
-		gs.notFound = nf
-		for _, r := range rets {
-			if r != nf {
-				if gs.found != nil {
-					gs.why = "more than one found return"
-					return gs
-				}
-				gs.found = r
-			}
-		}
-		if gs.found == nil {
-			gs.why = "no found return"
-			return gs
-		}
-		gs.idCall, gs.idFn, gs.cond, gs.ordCall, gs.ordFn, gs.helper = hs.idCall, hs.idFn, hs.cond, hs.ordCall, hs.ordFn, h
-		if v0 != nil && hs.value != nil {
-			e.env[v0] = hs.value
-		}
-		if len(gs.found.Results) >= 1 {
-			gs.value = e.eval(gs.found.Results[0])
-		}
-		return gs
-	}
-	gs.why = "does not look the key up with " + shortFn(getID)
 	return gs
 }
 
+// idTermOfGet: the term X of Get's not-found condition (-1 == X), when all its
+// not-found answers are given under exactly one such condition on the key.
+func idTermOfGet(gs getterSummary) string {
+	x := ""
+	for _, fp := range gs.nf {
+		pc := dedupStrings(append([]string{}, fp.pc...))
+		if len(pc) != 1 {
+			return ""
+		}
+		a, op, b, ok := splitCond(pc[0])
+		if !ok || op != "==" || a != "-1" || !strings.Contains(b, "KEY") {
+			return ""
+		}
+		if x != "" && x != b {
+			return ""
+		}
+		x = b
+	}
+	return x
+}
+
+// inlineWith evaluates the results of a single-block side-effect-free function with its parameters bound.
+func inlineWith(p *Program, h *ssa.Function, args []*term) []*term {
+	if len(h.Blocks) != 1 || len(args) != len(h.Params) {
+		return nil
+	}
+	for _, in := range h.Blocks[0].Instrs {
+		switch in.(type) {
+		case *ssa.Store, *ssa.MapUpdate, *ssa.Panic, *ssa.Defer, *ssa.Go:
+			return nil
+		}
+	}
+	sub := newEval(p)
+	for i, prm := range h.Params {
+		sub.env[prm] = args[i]
+	}
+	ret, ok := lastInstr(h.Blocks[0]).(*ssa.Return)
+	if !ok {
+		return nil
+	}
+	var out []*term
+	for _, r := range ret.Results {
+		out = append(out, sub.eval(r))
+	}
+	return out
+}
+
 func checkC14(p *Program, r *Report) {
-	r.Explanation = "Decided for every query string and every trie: (found) each GetI8/16/32/64 and Get call GetID(key), return not-found exactly when it is -1 and otherwise report found=true — the found flags are identical by construction; (ordinal) the typed getter takes the leaf ordinal from the same function Get's value path uses; (layout) the value returned normalises to the little-endian assembly sum over j<W of byte[W*ordinal+j]*2^(8j) of Leaves.Bytes with W = Sizeof(intW), each byte once, with no bits shifted out of a narrower type, and W is the constant size of the matching encoder encode.I{8W}."
+	r.Explanation = "Decided for every query string and every trie, on the guarded summaries (E11) of the accessors with helpers of package trie expanded: (found) each GetI8/16/32/64 and Get look the key up with the same id function; every not-found answer is given under exactly the condition id == -1 and is (0,false), every found answer under id != -1 and nothing else — so the found flags are identical to Get's; (ordinal) the byte offset of the value is W times the leaf ordinal that a function on Get's own value path computes from that id; (layout) the value returned normalises to the little-endian assembly sum over j<W of byte[W*ordinal+j]*2^(8j) of Leaves.Bytes with W = Sizeof(intW), each byte once and no byte outside the element read, with no bits shifted out of a narrower type, and W is the constant size of the matching encoder encode.I{8W}."
 	r.NotCovered = "That Leaves of an integer-valued trie is dense and fixed-size (true by newVLenArray for non-empty fixed-width values, a data fact)."
 	r.Trusted = []string{"go/ssa", "go/types Sizes"}
 	get := p.Method(p.Trie, "SlimTrie", "Get")
@@ -267,25 +149,62 @@ func checkC14(p *Program, r *Report) {
 			}
 		}
 	}
-	r.Rule("C14.found", "structure+E6", "found flag: not-found iff GetID(key) == -1, as in Get", 5)
+	r.Rule("C14.found", "E11", "found flag: not-found iff the id lookup of the key yields -1, as in Get", 5)
 	if getID == nil || get == nil {
 		r.Unk("(*trie.SlimTrie).Get/GetID", "", "anchor not found")
 		return
 	}
-	gShape := analyseGetter(p, get, getID)
-	if gShape.why != "" {
-		r.Bad("(*trie.SlimTrie).Get", p.Pos(get.Pos()), gShape.why)
+	gSum := summariseGetter(p, get)
+	// the id term is whatever Get's own not-found answer tests against -1 (GetID(key) today, or what
+	// it expands to when GetID is a thin wrapper)
+	idS := idTermOfGet(gSum)
+	if idS == "" {
+		idS = ON("call", funcID(getID), S("ST"), S("KEY")).String()
+	}
+	idT := S(idS)
+	nfCond, fCond := "(-1 == "+idS+")", "(-1 != "+idS+")"
+	// judge: every not-found path is exactly [id == -1]; every found path carries id != -1
+	judge := func(gs getterSummary, strictFound bool, zero string) []string {
+		var bad []string
+		for _, fp := range gs.nf {
+			pc := dedupStrings(append([]string{}, fp.pc...))
+			if len(pc) != 1 || pc[0] != nfCond {
+				bad = append(bad, "answers not-found under ["+abbreviate(fp.pcKey())+"], want exactly "+abbreviate(nfCond))
+			}
+			if zero != "" && fp.results[0].String() != zero {
+				bad = append(bad, "the not-found value is "+abbreviate(fp.results[0].String())+", want "+zero)
+			}
+		}
+		for _, fp := range gs.found {
+			has := false
+			var other []string
+			for _, c := range dedupStrings(append([]string{}, fp.pc...)) {
+				if c == fCond {
+					has = true
+				} else {
+					other = append(other, c)
+				}
+			}
+			if !has {
+				bad = append(bad, "answers found under ["+abbreviate(fp.pcKey())+"], which does not include "+abbreviate(fCond))
+			}
+			if strictFound && len(other) > 0 {
+				bad = append(bad, "the found answer also depends on ["+abbreviate(strings.Join(other, " & "))+"], which Get does not test")
+			}
+		}
+		return dedupStrings(sortStr(bad))
+	}
+	if gSum.why != "" {
+		r.Bad("(*trie.SlimTrie).Get", p.Pos(get.Pos()), gSum.why)
 	} else {
-		e := newEval(p)
-		nfOK := len(gShape.notFound.Results) == 2 && e.eval(gShape.notFound.Results[1]).String() == "false"
-		fOK := len(gShape.found.Results) == 2 && e.eval(gShape.found.Results[1]).String() == "true"
-		r.Check(nfOK && fOK, "(*trie.SlimTrie).Get", p.Pos(get.Pos()), "not-found iff GetID(key) == -1", "the found flag is not the constant false/true on the two branches of GetID(key) == -1")
+		bad := judge(gSum, false, "")
+		r.Check(len(bad) == 0, "(*trie.SlimTrie).Get", p.Pos(get.Pos()), "not-found iff "+shortFn(getID)+"(key) == -1", strings.Join(bad, "; "))
 	}
 	getReach := trieReach(get)
 	type res struct {
-		f     *ssa.Function
-		shape getterShape
-		w     int64
+		f   *ssa.Function
+		sum getterSummary
+		w   int64
 	}
 	var getters []res
 	for _, n := range []int{8, 16, 32, 64} {
@@ -296,53 +215,71 @@ func checkC14(p *Program, r *Report) {
 			continue
 		}
 		r.Func(shortFn(f))
-		sh := analyseGetter(p, f, getID)
-		if sh.why != "" {
-			r.Bad("(*trie.SlimTrie)."+name, p.Pos(f.Pos()), sh.why)
+		sum := summariseGetter(p, f)
+		if sum.why != "" {
+			r.Bad("(*trie.SlimTrie)."+name, p.Pos(f.Pos()), sum.why)
 			continue
 		}
-		e := newEval(p)
-		nfOK := len(sh.notFound.Results) == 2 && e.eval(sh.notFound.Results[1]).String() == "false" && e.eval(sh.notFound.Results[0]).String() == "0"
-		fOK := len(sh.found.Results) == 2 && e.eval(sh.found.Results[1]).String() == "true"
-		via := ""
-		if sh.helper != nil {
-			via = " (through " + shortFn(sh.helper) + ")"
-		}
-		r.Check(nfOK && fOK && sh.cond == gShape.cond, "(*trie.SlimTrie)."+name, p.Pos(f.Pos()), "returns (0,false) iff GetID(key) == -1, else (v,true); same test as Get"+via,
-			"the found flag differs from Get's: condition "+sh.cond+" vs "+gShape.cond)
+		bad := judge(sum, true, "0")
+		r.Check(len(bad) == 0, "(*trie.SlimTrie)."+name, p.Pos(f.Pos()), "returns (0,false) exactly when "+shortFn(getID)+"(key) == -1, else (v,true); same test as Get", strings.Join(bad, "; "))
 		w := p.Sizes.Sizeof(f.Signature.Results().At(0).Type())
-		getters = append(getters, res{f, sh, w})
+		getters = append(getters, res{f, sum, w})
 	}
 
-	r.Rule("C14.ordinal", "call graph", "the leaf ordinal comes from the function Get's value path uses", 4)
+	// candidate ordinals: what a single-block function on Get's value path computes from the id
+	type cand struct {
+		h *ssa.Function
+		t *term
+	}
+	var cands []cand
+	var hs []*ssa.Function
+	for h := range getReach {
+		hs = append(hs, h)
+	}
+	sort.Slice(hs, func(i, j int) bool { return hs[i].String() < hs[j].String() })
+	for _, h := range hs {
+		if len(h.Blocks) != 1 || len(h.Params) != 2 || !types.Identical(h.Params[1].Type(), types.Typ[types.Int32]) {
+			continue
+		}
+		rs := h.Signature.Results()
+		if rs.Len() == 0 || !types.Identical(rs.At(0).Type(), types.Typ[types.Int32]) {
+			continue
+		}
+		if out := inlineWith(p, h, []*term{S("ST"), idT}); len(out) > 0 {
+			cands = append(cands, cand{h, out[0]})
+		}
+	}
+	r.Rule("C14.ordinal", "E6", "the leaf ordinal is the one a function on Get's value path computes from the id", 4)
 	r.Rule("C14.layout", "E6+types", "value = little-endian assembly of W bytes at W*ordinal", 4)
 	for _, g := range getters {
 		name := "(*trie.SlimTrie)." + g.f.Name()
-		ordCall := g.shape.ordCall
 		r.curRule = r.Rules[len(r.Rules)-2]
-		if ordCall == nil {
-			r.Bad(name+" ordinal", p.Pos(g.f.Pos()), "the leaf ordinal is not obtained by a call on the id GetID returned")
+		if len(g.sum.found) != 1 {
+			r.Bad(name+" ordinal", p.Pos(g.f.Pos()), fmt.Sprintf("%d found paths, want one", len(g.sum.found)))
 			continue
 		}
-		r.Check(getReach[calleeOf(ordCall)], name+" ordinal", p.Pos(ordCall.Pos()), "from "+shortFn(calleeOf(ordCall))+", which Get's value path also uses",
-			shortFn(calleeOf(ordCall))+" is not on Get's value path: the two may locate different leaves")
-		r.curRule = r.Rules[len(r.Rules)-1]
-		e := newEval(p)
-		ords := e.inline(ordCall)
-		if g.shape.ordFn != nil && g.shape.ordFn != g.f {
-			// the ordinal is computed inside the helper: evaluate it there
-			ords = newEval(p).inline(ordCall)
-		}
-		if len(ords) == 0 {
-			r.Unk(name+" layout", p.Pos(ordCall.Pos()), "cannot evaluate the ordinal symbolically ("+shortFn(calleeOf(ordCall))+" is not a single-block function)")
-			continue
-		}
-		T := ords[0]
-		val := g.shape.value
-		if val == nil {
-			val = e.eval(g.shape.found.Results[0])
-		}
+		val := g.sum.found[0].results[0]
 		got := addends(val)
+		// which candidate ordinal explains the byte of weight 1?
+		var T *term
+		var via *ssa.Function
+		for _, c := range cands {
+			b0 := ON("idx", "", S("Slim.Leaves.Bytes"), O("add", mulTerms(K(g.w), c.t), K(0)))
+			if got[b0.String()] == 1 {
+				T, via = c.t, c.h
+				break
+			}
+		}
+		if T == nil {
+			var names []string
+			for _, c := range cands {
+				names = append(names, shortFn(c.h))
+			}
+			r.Bad(name+" ordinal", p.Pos(g.f.Pos()), fmt.Sprintf("the low byte of the value is not Leaves.Bytes[%d*ordinal] for the ordinal any of %v computes from the id: the getter and Get may locate different leaves (value %s)", g.w, names, abbreviate(val.String())))
+			continue
+		}
+		r.OK(name+" ordinal", p.Pos(g.f.Pos()), "ordinal as computed by "+shortFn(via)+", which Get's value path also uses")
+		r.curRule = r.Rules[len(r.Rules)-1]
 		want := map[string]int64{}
 		for j := int64(0); j < g.w; j++ {
 			idx := O("add", mulTerms(K(g.w), T), K(j))
@@ -369,7 +306,7 @@ func checkC14(p *Program, r *Report) {
 			sort.Strings(ws)
 			detail = fmt.Sprintf("value is {%s}, want the %d-byte little-endian assembly {%s} with T the leaf ordinal", strings.Join(gs, " + "), g.w, strings.Join(ws, " + "))
 		}
-		r.Check(ok, name+" layout", p.Pos(g.shape.found.Pos()), fmt.Sprintf("sum over j<%d of Leaves.Bytes[%d*ordinal+j] * 2^(8j)", g.w, g.w), detail)
+		r.Check(ok, name+" layout", p.Pos(g.f.Pos()), fmt.Sprintf("sum over j<%d of Leaves.Bytes[%d*ordinal+j] * 2^(8j)", g.w, g.w), detail)
 		// width agrees with the encoder
 		encName := "I" + fmt.Sprint(8*g.w)
 		if gs := p.ValueMethod(p.Enc, encName, "GetEncodedSize"); gs != nil {
@@ -384,7 +321,6 @@ func checkC14(p *Program, r *Report) {
 			r.Unk(name+" width = encode."+encName+" size", "", "encoder not found")
 		}
 	}
-	_ = types.Typ
 }
 
 // abbreviate shortens long terms for messages by replacing the ordinal.
